@@ -666,14 +666,14 @@ def task_composition():
     return col.pack()
 
 
-def task_concrete():
+def task_concrete(part=0, of=1):
     import os
     from . import c16_concrete
     col = ob.Collector(PROP, 'concrete')
     seed = int(os.environ.get('VERIF_SEED', '0'))
     tier = os.environ.get('VERIF_TIER', 'quick')
-    r = ob.guarded(c16_concrete.check, tier, seed)
-    col.concrete('all_stated_postconditions_on_origin_and_widths_and_construct_mesh', r['reproduced'] is False, r,
+    r = ob.guarded(c16_concrete.check, tier, seed, part, of)
+    col.concrete(f'all_stated_postconditions_on_origin_and_widths_and_construct_mesh/part{part + 1}of{of}', r['reproduced'] is False, r,
                  bounded='frequencies (incl. Laplace) x property lists of 1,2,3 (and 3,4,7 via construct_mesh) in six mappings x domain/distance/vector x '
                          'stretching pairs x buffer options x centre switches x width limits x sea surfaces; required buffer computed independently',
                  cases=r.get('cases', 0))
@@ -681,8 +681,9 @@ def task_concrete():
 
 
 def tasks(tier):
-    t = [('contracts.c16', n, {}) for n in ('task_prefix', 'task_search', 'task_construct', 'task_formulas', 'task_seasurface', 'task_composition',
-                                            'task_concrete')]
+    t = [('contracts.c16', n, {}) for n in ('task_prefix', 'task_search', 'task_construct', 'task_formulas', 'task_seasurface', 'task_composition')]
+    of = 4 if tier == 'quick' else 12
+    t += [('contracts.c16', 'task_concrete', dict(part=k, of=of)) for k in range(of)]
     t += [('contracts.c16_stretch', n, {}) for n in ('task_lemmas', 'task_stretch')]
     return t
 
